@@ -30,6 +30,18 @@ pub fn run(ctx: &Ctx) -> (Report, String) {
     });
     let mut rep = Report::merge_all(reps);
     rep.merge(pre);
+    if !ctx.miri() && (ctx.is_main() || ctx.stage == "asan") {
+        let n = ladder_items(ctx).len();
+        let lr = par_shards(n, ctx.threads, |k| {
+            let mut r = Report::new();
+            crate::mon::guarded(&mut r, || J::obj().set("property", "C02").set("kind", "ladder").set("k", k), |r| ladder_case(ctx, k, r));
+            r
+        });
+        rep.merge(Report::merge_all(lr));
+        if ctx.is_main() {
+            rep.require("ladder_pictures_compared", n as u64);
+        }
+    }
     if ctx.is_main() {
         rep.require("pictures_compared", if ctx.tier == Tier::Quick { 250_000 } else { 4_000_000 } * ctx.scale_pct / 100);
         for k in ["flavour=sorenson-v0", "flavour=sorenson-v1", "flavour=std-plusptype", "shape=first-row", "shape=first-col", "shape=dense", "shape=last63", "shape=dc-only", "esc=Esc7", "esc=Esc8", "esc=Esc11", "esc=Short", "kind=INTRA+Q"] {
@@ -121,6 +133,37 @@ fn describe(pic: &SymPicture, flavour: Flavour, bytes: &[u8]) -> J {
     j
 }
 
+/// Boundary-value ladder: picture dimensions, macroblock counts, sample counts and
+/// extra-information byte counts around powers of two (see mon/ladder.rs).
+pub fn ladder_items(ctx: &Ctx) -> Vec<(Flavour, usize, usize, usize)> {
+    let mut rng = Rng::new(ctx.seed ^ 0xC02AD, 0);
+    let mut v = vec![];
+    for (i, (w, h)) in super::ladder::boundary_dims(&mut rng, ctx.tier == Tier::Thorough).into_iter().enumerate() {
+        v.push((Flavour::Sor((i % 2) as u8), w, h, 0));
+    }
+    for (w, h) in super::ladder::std_boundary_dims() {
+        v.push((Flavour::StdPlus, w, h, 0));
+    }
+    for (i, n) in super::ladder::PEI_LADDER.iter().enumerate() {
+        v.push((if i % 3 == 2 { Flavour::StdFixed } else { Flavour::Sor((i % 2) as u8) }, if i % 3 == 2 { 128 } else { 16 }, if i % 3 == 2 { 96 } else { 16 }, *n));
+    }
+    v
+}
+
+pub fn ladder_case(ctx: &Ctx, k: usize, rep: &mut Report) {
+    let items = ladder_items(ctx);
+    let (flavour, w, h, pei) = items[k];
+    let mut rng = Rng::new(ctx.seed ^ 0xC02AD, 1 + k as u64);
+    let cfg = super::ladder::cfg_for(&mut rng, flavour, w, h, pei);
+    let pic = super::ladder::large_intra(&mut rng, &cfg);
+    let before = rep.get("pictures_compared");
+    judge(rep, &pic, flavour, &cfg, J::obj().set("property", "C02").set("kind", "ladder").set("tier", ctx.tier_name()).set("seed", ctx.seed).set("stage", ctx.stage.clone()).set("k", k).set("what", format!("{} {}x{} pei={}", flavour.name(), w, h, pei)), k == 0);
+    if rep.get("pictures_compared") > before {
+        rep.count("ladder_pictures_compared");
+        rep.count(&format!("ladder:{}", if pei > 0 { "pei" } else if w.max(h) >= 65519 { "dim>=65519" } else if w.max(h) > 2048 { "dim>2048" } else if ((w + 15) / 16) * ((h + 15) / 16) > 4096 { "mb>4096" } else { "other" }));
+    }
+}
+
 pub fn case(ctx: &Ctx, shard: usize, index: u64, rep: &mut Report) {
     let mut rng = Rng::new(ctx.seed ^ 0xC02, ((shard as u64) << 40) | index);
     // size policy: mostly small; a tail of larger pictures; thorough walks the small box exhaustively
@@ -146,10 +189,17 @@ pub fn case(ctx: &Ctx, shard: usize, index: u64, rep: &mut Report) {
     };
     let cfg = gen_cfg(&mut rng, flavour, w, h);
     let pic = gen_intra(&mut rng, &cfg);
+    let coords = crate::mon::coords("C02", ctx, shard, index);
+    judge(rep, &pic, flavour, &cfg, coords, shard == 0 && index < 3);
+}
+
+/// Encode, decode with the real decoder, reconstruct with the model, compare, count coverage.
+pub fn judge(rep: &mut Report, pic: &SymPicture, flavour: Flavour, cfg: &PicCfg, coords0: J, sample: bool) {
+    let (w, h) = (pic.w, pic.h);
     let bytes = pic.encode();
     rep.evaluations += 1;
-    let coords = || crate::mon::coords("C02", ctx, shard, index).set("bytes", hex(&bytes)).set("sorenson", flavour.sorenson());
-    let rec = match reconstruct(&pic, None) {
+    let coords = || coords0.clone().set("bytes", if bytes.len() <= 4096 { hex(&bytes) } else { format!("{} bytes", bytes.len()) }).set("sorenson", flavour.sorenson());
+    let rec = match reconstruct(pic, None) {
         Ok(r) => r,
         Err(e) => {
             rep.inconclusive.push(format!("generator produced an invalid picture: {}", e));
@@ -225,7 +275,7 @@ pub fn case(ctx: &Ctx, shard: usize, index: u64, rep: &mut Report) {
     if nontrivial {
         rep.distinct.insert(fnv64(&bytes));
     }
-    if shard == 0 && index < 3 {
-        rep.sample(8, || describe(&pic, flavour, &bytes));
+    if sample {
+        rep.sample(8, || describe(pic, flavour, &bytes));
     }
 }
